@@ -158,7 +158,9 @@ Fixpoint rec_params (rec : node -> ty -> result RecResult) (n : node) (ps : list
   match params with
   | [] => Ok ([TClass c], rec_ok)
   | p :: rest =>
-      let try_name (name : ustring) (k : result RecResult) : result RecResult :=
+      (* the continuation is a thunk: under call-by-value evaluation (vm_compute) an argument would be computed even when
+         the attribute is present, which doubles the work per parameter *)
+      let try_name (name : ustring) (k : unit -> result RecResult) : result RecResult :=
         if has_attr_ps name ps then
           match get_attr_ps name ps with
           | Err _ => Ok ([], RE [nmark n] [name] [])        (* key given more than once *)
@@ -167,10 +169,10 @@ Fixpoint rec_params (rec : node -> ty -> result RecResult) (n : node) (ps : list
               if is_nil (fst res) then Ok ([], RE [first_key_mark name ps (nmark n)] [name] [snd res])
               else rec_params rec n ps rest c
           end
-        else k in
+        else k tt in
       try_name (p_name p)
-        (try_name (dashed (p_name p))
-           (if p_required p then Ok ([], RE [nmark n] [p_name p] []) else rec_params rec n ps rest c))
+        (fun _ => try_name (dashed (p_name p))
+           (fun _ => if p_required p then Ok ([], RE [nmark n] [p_name p] []) else rec_params rec n ps rest c))
   end.
 
 Definition rec_class (o : oracle) (rec : node -> ty -> result RecResult) (k : cls) (n : node) : result RecResult :=
